@@ -2,6 +2,7 @@ import Lemmas.QuadTreeTree
 import Lemmas.QuadTreeGeom
 import Lemmas.QuadTreeFuel
 import Lemmas.QuadTreeFuelTree
+import Lemmas.QuadTreeFuelRat
 /-! # C07 — QuadTree queries return exactly what a linear scan of the stored nodes would
 
 Property theorems only.  `QT.Tree` / `QT.Node` are the executable model of `collection/quadtree` (`Model/QuadTree.lean`)
@@ -229,6 +230,30 @@ theorem fuel_independent_int (threshold f f' : Nat) (n : Node (Rect Int)) (it : 
     (hr : n.rect.empty = false) (h1 : (n.rect.w + n.rect.h).toNat ≤ f) (h2 : (n.rect.w + n.rect.h).toNat ≤ f') :
     Node.insert threshold f n it = Node.insert threshold f' n it :=
   insert_fuel_indep threshold f f' n it hn hr h1 h2
+
+/-- **depth bound for exact rational coordinates** (float64 without rounding): halving never reaches zero, so there is no
+    bound by `W + H`; instead every child is exactly half as wide as its parent and a node is split only while an item
+    that it contains is being routed into it.  `QT.GoodQ m` (every stored item is at least `m` wide, every split node is
+    at least `m` wide, children are half as wide) is kept by node insertion with every threshold and fuel, and a good
+    node narrower than `m · 2^k` is at most `k` levels deep: the depth is logarithmic in root width / smallest item
+    width.  With the driver's fuel 200 this covers every ratio below 2^199. -/
+theorem split_depth_rat (m : Rat) (threshold fuel : Nat) (n : Node (Rect Rat)) (it : Item (Rect Rat))
+    (hn : GoodQ m n) (hc : n.rect.contains it.rect = true) (hi : m ≤ it.rect.w) :
+    GoodQ m (Node.insert threshold fuel n it) ∧ (Node.insert threshold fuel n it).rect = n.rect ∧
+    ∀ k : Nat, n.rect.w < m * 2 ^ k → (Node.insert threshold fuel n it).depth ≤ k := by
+  obtain ⟨a, b⟩ := insert_goodQ m threshold fuel n it hn hc hi
+  exact ⟨a, b, fun k hk => depthQ m _ a k (by rw [b]; exact hk)⟩
+
+/-- the same over a whole `Reorganize`: the root built by the re-insertion loop from the fresh leaf over `rect`, from
+    items that are all at least `m` wide, is at most `k` levels deep if `rect` is narrower than `m · 2^k`.  (Not lifted
+    to whole histories and no fuel-independence theorem for `Rat`: that would repeat `fuel_suffices_int` with the box
+    replaced by "root width / smallest stored width".) -/
+theorem reorganize_depth_rat (m : Rat) (threshold fuel : Nat) (rect : Rect Rat) (items : List (Item (Rect Rat)))
+    (hitems : ∀ x ∈ items, m ≤ x.rect.w) (k : Nat) (hk : rect.w < m * 2 ^ k) :
+    (items.foldl (Tree.reorgStep rect threshold fuel) (Node.leaf rect [], [])).1.depth ≤ k := by
+  obtain ⟨a, b⟩ := reorgFold_goodQ m rect threshold fuel items hitems (Node.leaf rect [], [])
+    (fun x hx => by simp at hx) rfl
+  exact depthQ m _ a k (by rw [b]; exact hk)
 
 /-- the step this rests on: when an integer node splits (`canSplit`: half-width or half-height positive), every child
     that can receive an item (non-empty child) has a strictly smaller `W + H` than its parent — including child 0
